@@ -73,6 +73,12 @@ def gen_history(ctx, weighted):
     r = ctx.rng
     pool = [(a, b) for a in range(3) for b in range(3)][: r.randint(2, 7)] if r.random() < 0.5 else list(range(r.randint(2, 7)))
     wts = [F(1, 4), F(1, 2), F(1), F(3, 2), F(2), F(3)]
+    wide = r.random() < 0.25
+    if wide:
+        # (no choose_random on these histories: rejection sampling needs ~2^47 rounds)
+        # weights spanning ~14 orders of magnitude (exact powers of two: the float totals stay exact): thresholds
+        # relative to max_weight or absolute epsilons on the total become visible
+        wts = [F(1), F(2), F(3), F(1, 2 ** 47), F(3, 2 ** 47), F(1, 2 ** 45)]
     n = r.randint(3, ctx.scale(25, 40))
     ops, present = [], []
     weights = {}
@@ -109,7 +115,7 @@ def gen_history(ctx, weighted):
             it = heavy if (heavy is not None and r.random() < 0.4) else r.choice(present)
             ops.append(["rem", it])
             present.remove(it)
-        else:
+        elif not wide:
             ops.append(["cho"])
     return ops
 
